@@ -7,31 +7,55 @@ variable {V : Type} {C : Cls} {W : World V} {conf : String → V → Prop} {addO
 
 /-! ### what `coerce` does -/
 
+/-- the state `__coerce_property__` leaves (repaired code) -/
+abbrev co (C : Cls) (W : World V) (s : State V) (p : Field) : State V := (coerce false C W s p).1
+
 theorem coerce_cases (s : State V) (p : Field) :
-    coerce C W s p = s ∨ ∃ v, compute C W s p = some v ∧ coerce C W s p = { s with data := s.data.set p.name v } := by
-  unfold coerce
+    co C W s p = s ∨ co C W s p = { s with data := s.data.del p.name } ∨
+      ∃ v, compute C W s p = some v ∧ co C W s p = { s with data := s.data.set p.name v } := by
+  unfold co coerce compute
   split
   · exact Or.inl rfl
   · split
     · exact Or.inl rfl
     · split
+      · exact Or.inr (Or.inl rfl)
       · exact Or.inl rfl
       · rename_i v hv
-        exact Or.inr ⟨v, hv, rfl⟩
+        exact Or.inr (Or.inr ⟨v, by simp [hv], rfl⟩)
 
-theorem compute_getter {s : State V} {p : Field} {v : V} (h : compute C W s p = some v) :
-    ∃ xs, W.getter p.name xs = some v := by
+theorem compute3_value {s : State V} {p : Field} {v : V} (h : compute3 C W s p = .value v) :
+    ∃ raw, W.convert p.name raw = some v := by
+  unfold compute3 at h
+  cases h1 : p.deps.mapM (fun d => (getField C d).bind (fieldGet W s)) with
+  | none => simp [h1] at h
+  | some xs =>
+    cases h2 : W.getter p.name xs with
+    | none => simp [h1, h2] at h
+    | some raw =>
+      cases h3 : W.convert p.name raw with
+      | none => simp [h1, h2, h3] at h
+      | some w =>
+        simp [h1, h2, h3] at h
+        exact ⟨raw, by rw [h3, h]⟩
+
+theorem compute_convert {s : State V} {p : Field} {v : V} (h : compute C W s p = some v) :
+    ∃ raw, W.convert p.name raw = some v := by
   unfold compute at h
-  cases hm : p.deps.mapM (fun d => (getField C d).bind (fieldGet W s)) with
-  | none => simp [hm] at h
-  | some xs => exact ⟨xs, by simpa [hm] using h⟩
+  cases hc : compute3 C W s p with
+  | raised => simp [hc] at h
+  | unconvertible => simp [hc] at h
+  | value w =>
+    simp [hc] at h
+    subst h
+    exact compute3_value hc
 
 /-! ### Valid -/
 
 theorem valid_setData (hwf : WF C) {s : State V} (h : Valid C conf addOk s) {f : Field} (hf : f ∈ C.fields)
     (hno : f.noOutput = false) {pv : V} (hc : conf f.name pv) :
     Valid C conf addOk { s with data := s.data.set f.name pv } := by
-  refine ⟨?_, ?_, h.confAttr, ?_, ?_, ?_, ?_⟩
+  refine ⟨?_, ?_, h.confAttr, ?_, ?_, ?_, ?_, h.propAttr⟩
   · intro k v g hk hg
     simp only [get_set] at hk
     by_cases e : k = f.name
@@ -85,7 +109,7 @@ theorem valid_setData (hwf : WF C) {s : State V} (h : Valid C conf addOk s) {f :
       exact h.viewsOut g hg hn hnone
 
 theorem valid_setAttr (hwf : WF C) {s : State V} (h : Valid C conf addOk s) {f : Field} (hf : f ∈ C.fields)
-    (hno : f.noOutput = true) {pv : V} (hc : conf f.name pv) :
+    (hfp : f.isProp = false) (hno : f.noOutput = true) {pv : V} (hc : conf f.name pv) :
     Valid C conf addOk { data := s.data.del f.name, attrs := s.attrs.set f.attname pv } := by
   have hnone : s.data.get f.name = none := h.viewsNo f hf hno
   have hdata : ∀ k, (s.data.del f.name).get k = s.data.get k := by
@@ -94,7 +118,7 @@ theorem valid_setAttr (hwf : WF C) {s : State V} (h : Valid C conf addOk s) {f :
     split
     · rename_i e; rw [e, hnone]
     · rfl
-  refine ⟨?_, ?_, ?_, ?_, ?_, ?_, ?_⟩
+  refine ⟨?_, ?_, ?_, ?_, ?_, ?_, ?_, ?_⟩
   · intro k v g hk hg
     rw [hdata] at hk
     exact h.keyName k v g hk hg
@@ -140,39 +164,101 @@ theorem valid_setAttr (hwf : WF C) {s : State V} (h : Valid C conf addOk s) {f :
       cases hn
     · simp only [e, if_false]
       exact h.viewsOut g hg hn hnone'
+  · intro g hg hgp
+    have hne : g.attname ≠ f.attname := by
+      intro e
+      have := att_inj hwf hg hf e
+      subst this
+      rw [hfp] at hgp
+      cases hgp
+    simp only [get_set, hne, if_false]
+    exact h.propAttr g hg hgp
 
 theorem valid_storeField (hwf : WF C) {s : State V} (h : Valid C conf addOk s) {f : Field} (hf : f ∈ C.fields)
-    {pv : V} (hc : conf f.name pv) : Valid C conf addOk (storeField s f pv) := by
+    (hfp : f.isProp = false) {pv : V} (hc : conf f.name pv) : Valid C conf addOk (storeField s f pv) := by
   unfold storeField
   split
-  · rename_i hn; exact valid_setAttr hwf h hf hn hc
+  · rename_i hn; exact valid_setAttr hwf h hf hfp hn hc
   · rename_i hn; exact valid_setData hwf h hf (by simpa using hn) hc
 
+/-- a stored property is dropped -/
+theorem valid_delProp (hwf : WF C) {s : State V} (h : Valid C conf addOk s) {p : Field} (hp : p ∈ C.fields)
+    (hpp : p.isProp = true) : Valid C conf addOk { s with data := s.data.del p.name } := by
+  obtain ⟨hreq, _, hno, _⟩ := hwf.propPlain p hp hpp
+  refine ⟨?_, ?_, h.confAttr, ?_, ?_, ?_, ?_, h.propAttr⟩
+  · intro k v g hk hg
+    simp only [get_del] at hk
+    split at hk
+    · cases hk
+    · exact h.keyName k v g hk hg
+  · intro g hg v hv
+    simp only [get_del] at hv
+    split at hv
+    · cases hv
+    · exact h.confData g hg v hv
+  · intro k v hk hg
+    simp only [get_del] at hk
+    split at hk
+    · cases hk
+    · exact h.addition k v hk hg
+  · intro g hg hr hi
+    have hgp : g ≠ p := by intro e; subst e; rw [hreq] at hr; cases hr
+    have hne : g.name ≠ p.name := fun e => hgp (name_inj hwf hg hp e)
+    have := h.required g hg hr hi
+    unfold present at this ⊢
+    simp only [has_del, hne, decide_false, Bool.not_false, Bool.true_and]
+    exact this
+  · intro g hg hn
+    simp only [get_del]
+    split
+    · rfl
+    · exact h.viewsNo g hg hn
+  · intro g hg hn hnone
+    simp only [get_del] at hnone
+    by_cases e : g.name = p.name
+    · have := name_inj hwf hg hp e
+      subst this
+      exact h.propAttr g hg hpp
+    · simp only [e, if_false] at hnone
+      exact h.viewsOut g hg hn hnone
+
 theorem valid_coerce (hwf : WF C) (hl : Laws W conf addOk) {s : State V} (h : Valid C conf addOk s) {p : Field}
-    (hp : p ∈ C.fields) (hpp : p.isProp = true) : Valid C conf addOk (coerce C W s p) := by
-  rcases coerce_cases (C := C) (W := W) s p with e | ⟨v, hv, e⟩
+    (hp : p ∈ C.fields) (hpp : p.isProp = true) : Valid C conf addOk (co C W s p) := by
+  rcases coerce_cases (C := C) (W := W) s p with e | e | ⟨v, hv, e⟩
   · rw [e]; exact h
+  · rw [e]; exact valid_delProp hwf h hp hpp
   · rw [e]
-    obtain ⟨xs, hx⟩ := compute_getter hv
-    exact valid_setData hwf h hp (hwf.propPlain p hp hpp).2.2.1 (hl.getterSound _ _ _ hx)
+    obtain ⟨raw, hx⟩ := compute_convert hv
+    exact valid_setData hwf h hp (hwf.propPlain p hp hpp).2.2.1 (hl.convertSound _ _ _ hx)
 
 /-- an invariant kept by recomputing any property is kept by the dependants loop -/
-theorem coerceDependants_preserves (P : State V → Prop)
-    (hP : ∀ s p, P s → p ∈ C.fields → p.isProp = true → P (coerce C W s p)) (f : Field) :
-    ∀ s : State V, P s → P (coerceDependants C W s f) := by
-  unfold coerceDependants
-  induction f.dependants with
+theorem coerceList_preserves (P : State V → Prop)
+    (hP : ∀ s p, P s → p ∈ C.fields → p.isProp = true → P (co C W s p)) (l : List String) :
+    ∀ s : State V, P s → P (coerceList false C W s l).1 := by
+  induction l with
   | nil => intro s h; exact h
   | cons q qs ih =>
     intro s h
-    simp only [List.foldl_cons]
-    apply ih
+    simp only [coerceList]
     split
     · rename_i p hq
       split
-      · rename_i hpp; exact hP s p h (getField_some hq).1 hpp
-      · exact h
-    · exact h
+      · rename_i hpp
+        have h1 := hP s p h (getField_some hq).1 hpp
+        cases hc : coerce false C W s p with
+        | mk s' b =>
+          have e : co C W s p = s' := by simp [co, hc]
+          rw [e] at h1
+          cases b with
+          | true => exact h1
+          | false => exact ih s' h1
+      · exact ih s h
+    · exact ih s h
+
+theorem coerceDependants_preserves (P : State V → Prop)
+    (hP : ∀ s p, P s → p ∈ C.fields → p.isProp = true → P (co C W s p)) (f : Field) :
+    ∀ s : State V, P s → P (coerceDependants false C W s f).1 :=
+  coerceList_preserves P hP f.dependants
 
 theorem clearAttrs_get (s : State V) (a : String) :
     (clearAttrs C s).get a = if C.fields.any (fun f => s.data.has f.name && decide (f.attname = a)) then none
@@ -195,19 +281,19 @@ theorem clearAttrs_get (s : State V) (a : String) :
         simp [hg, ha, ha', get_del]
     · simp [hg]
 
-theorem valid_prim (hwf : WF C) (hl : Laws W conf addOk) {strict : Bool} (s : State V) (p : Prim V)
-    (h : Valid C conf addOk s) (hok : Prim.ok strict C W s p) : Valid C conf addOk (p.apply C W s) := by
+theorem valid_prim (hwf : WF C) (hl : Laws W conf addOk) {strict : Bool} {xs : List V} (s : State V) (p : Prim V)
+    (h : Valid C conf addOk s) (hok : Prim.ok strict xs C W s p) : Valid C conf addOk (p.apply C W s) := by
   cases p with
   | store f pv =>
-    obtain ⟨hf, _, _, _, x, hx⟩ := hok
+    obtain ⟨hf, hfp, _, _, ⟨x, _, hx⟩, _⟩ := hok
     exact coerceDependants_preserves (Valid C conf addOk) (fun s p h hp hpp => valid_coerce hwf hl h hp hpp) f _
-      (valid_storeField hwf h hf (hl.parseSound _ _ _ hx))
+      (valid_storeField hwf h hf hfp (hl.parseSound _ _ _ hx))
   | recompute q =>
-    exact valid_coerce hwf hl h hok.1 hok.2
+    exact valid_coerce hwf hl h hok.1 hok.2.1
   | setAdd k v =>
     obtain ⟨hk, _, hadd⟩ := hok
     have hne : ∀ g ∈ C.fields, g.name ≠ k := fun g hg => getField_none_ne hwf hk hg
-    refine ⟨?_, ?_, h.confAttr, ?_, ?_, ?_, ?_⟩
+    refine ⟨?_, ?_, h.confAttr, ?_, ?_, ?_, ?_, h.propAttr⟩
     · intro k' v' g hk' hg
       simp only [Prim.apply, get_set] at hk'
       by_cases e : k' = k
@@ -222,7 +308,7 @@ theorem valid_prim (hwf : WF C) (hl : Laws W conf addOk) {strict : Bool} (s : St
       by_cases e : k' = k
       · simp only [e, if_true] at hk'
         cases hk'
-        rcases hadd with ha | ⟨ha, x, hx⟩
+        rcases hadd with ⟨ha, _⟩ | ⟨ha, x, _, hx⟩
         · exact Or.inl ha
         · exact Or.inr ⟨ha, hl.addSound _ _ hx⟩
       · simp only [e, if_false] at hk'
@@ -251,7 +337,7 @@ theorem valid_prim (hwf : WF C) (hl : Laws W conf addOk) {strict : Bool} (s : St
         have := h.viewsNo f hf hn
         rw [(has_false_iff _ _).mpr this] at hhas
         cases hhas
-    refine ⟨?_, ?_, ?_, ?_, ?_, ?_, ?_⟩
+    refine ⟨?_, ?_, ?_, ?_, ?_, ?_, ?_, ?_⟩
     · intro k v g hk hg
       simp only [Prim.apply, get_del] at hk
       split at hk
@@ -301,10 +387,15 @@ theorem valid_prim (hwf : WF C) (hl : Laws W conf addOk) {strict : Bool} (s : St
         split
         · rfl
         · exact this
+    · intro g hg hgp
+      simp only [Prim.apply, get_del]
+      split
+      · rfl
+      · exact h.propAttr g hg hgp
   | delKey k =>
     have hk : getField C k = none := hok
     have hne : ∀ g ∈ C.fields, g.name ≠ k := fun g hg => getField_none_ne hwf hk hg
-    refine ⟨?_, ?_, h.confAttr, ?_, ?_, ?_, ?_⟩
+    refine ⟨?_, ?_, h.confAttr, ?_, ?_, ?_, ?_, h.propAttr⟩
     · intro k' v' g hk' hg
       simp only [Prim.apply, get_del] at hk'
       split at hk'
@@ -331,7 +422,7 @@ theorem valid_prim (hwf : WF C) (hl : Laws W conf addOk) {strict : Bool} (s : St
       exact h.viewsOut g hg hn hnone
   | clear =>
     have hall : ∀ f ∈ C.fields, f.immutable = false ∧ (f.required = false ∨ C.opts.ignoreRequired = true) := hok
-    refine ⟨?_, ?_, ?_, ?_, ?_, ?_, ?_⟩
+    refine ⟨?_, ?_, ?_, ?_, ?_, ?_, ?_, ?_⟩
     · intro k v g hk; simp [Prim.apply] at hk
     · intro g hg v hv; simp [Prim.apply] at hv
     · intro g hg v hv
@@ -357,10 +448,15 @@ theorem valid_prim (hwf : WF C) (hl : Laws W conf addOk) {strict : Bool} (s : St
           apply hany
           rw [List.any_eq_true]
           exact ⟨g, hg, by simp [(has_iff _ _).mpr ⟨v, hd⟩]⟩
+    · intro g hg hgp
+      simp only [Prim.apply, clearAttrs_get]
+      split
+      · rfl
+      · exact h.propAttr g hg hgp
   | setAttrOther a v =>
-    have ha : fieldByAtt C a = none := hok
+    have ha : fieldByAtt C a = none := hok.1
     have hne : ∀ g ∈ C.fields, g.attname ≠ a := fun g hg => fieldByAtt_none ha hg
-    refine ⟨h.keyName, h.confData, ?_, h.addition, ?_, h.viewsNo, ?_⟩
+    refine ⟨h.keyName, h.confData, ?_, h.addition, ?_, h.viewsNo, ?_, ?_⟩
     · intro g hg v' hv
       simp only [Prim.apply, get_set, hne g hg, if_false] at hv
       exact h.confAttr g hg v' hv
@@ -372,10 +468,13 @@ theorem valid_prim (hwf : WF C) (hl : Laws W conf addOk) {strict : Bool} (s : St
     · intro g hg hn hnone
       simp only [Prim.apply, get_set, hne g hg, if_false]
       exact h.viewsOut g hg hn hnone
+    · intro g hg hgp
+      simp only [Prim.apply, get_set, hne g hg, if_false]
+      exact h.propAttr g hg hgp
   | delAttrOther a =>
     have ha : fieldByAtt C a = none := hok
     have hne : ∀ g ∈ C.fields, g.attname ≠ a := fun g hg => fieldByAtt_none ha hg
-    refine ⟨h.keyName, h.confData, ?_, h.addition, ?_, h.viewsNo, ?_⟩
+    refine ⟨h.keyName, h.confData, ?_, h.addition, ?_, h.viewsNo, ?_, ?_⟩
     · intro g hg v' hv
       simp only [Prim.apply, get_del, hne g hg, if_false] at hv
       exact h.confAttr g hg v' hv
@@ -387,24 +486,27 @@ theorem valid_prim (hwf : WF C) (hl : Laws W conf addOk) {strict : Bool} (s : St
     · intro g hg hn hnone
       simp only [Prim.apply, get_del, hne g hg, if_false]
       exact h.viewsOut g hg hn hnone
+    · intro g hg hgp
+      simp only [Prim.apply, get_del, hne g hg, if_false]
+      exact h.propAttr g hg hgp
 
 /-! ### immutable fields -/
 
 theorem stored_coerce (hwf : WF C) {f : Field} (hf : f ∈ C.fields) (hi : f.immutable = true) (s : State V)
-    {p : Field} (hp : p ∈ C.fields) (hpp : p.isProp = true) : stored (coerce C W s p) f = stored s f := by
-  rcases coerce_cases (C := C) (W := W) s p with e | ⟨v, _, e⟩
+    {p : Field} (hp : p ∈ C.fields) (hpp : p.isProp = true) : stored (co C W s p) f = stored s f := by
+  have hne : f.name ≠ p.name := by
+    intro e'
+    have := name_inj hwf hf hp e'
+    subst this
+    rw [(hwf.propPlain f hp hpp).2.1] at hi
+    cases hi
+  rcases coerce_cases (C := C) (W := W) s p with e | e | ⟨v, _, e⟩
   · rw [e]
-  · rw [e]
-    have hne : f.name ≠ p.name := by
-      intro e'
-      have := name_inj hwf hf hp e'
-      subst this
-      rw [(hwf.propPlain f hp hpp).2.1] at hi
-      cases hi
-    simp [stored, get_set, hne]
+  · rw [e]; simp [stored, get_del, hne]
+  · rw [e]; simp [stored, get_set, hne]
 
-theorem stored_prim (hwf : WF C) {strict : Bool} {f : Field} (hf : f ∈ C.fields) (hi : f.immutable = true)
-    (s : State V) (p : Prim V) (hok : Prim.ok strict C W s p) : stored (p.apply C W s) f = stored s f := by
+theorem stored_prim (hwf : WF C) {strict : Bool} {xs : List V} {f : Field} (hf : f ∈ C.fields) (hi : f.immutable = true)
+    (s : State V) (p : Prim V) (hok : Prim.ok strict xs C W s p) : stored (p.apply C W s) f = stored s f := by
   cases p with
   | store g pv =>
     obtain ⟨hg, _, hgi, _, _⟩ := hok
@@ -417,7 +519,7 @@ theorem stored_prim (hwf : WF C) {strict : Bool} {f : Field} (hf : f ∈ C.field
     have := coerceDependants_preserves (C := C) (W := W) (fun t => stored t f = stored s f)
       (fun t p ht hp hpp => by rw [stored_coerce hwf hf hi t hp hpp]; exact ht) g _ h1
     exact this
-  | recompute q => exact stored_coerce hwf hf hi s hok.1 hok.2
+  | recompute q => exact stored_coerce hwf hf hi s hok.1 hok.2.1
   | setAdd k v =>
     have hne : f.name ≠ k := getField_none_ne hwf hok.1 hf
     simp [Prim.apply, stored, get_set, hne]
@@ -436,7 +538,7 @@ theorem stored_prim (hwf : WF C) {strict : Bool} {f : Field} (hf : f ∈ C.field
     rw [(hall f hf).1] at hi
     cases hi
   | setAttrOther a v =>
-    have ha : fieldByAtt C a = none := hok
+    have ha : fieldByAtt C a = none := hok.1
     have hne : f.attname ≠ a := fieldByAtt_none ha hf
     simp [Prim.apply, stored, get_set, hne]
   | delAttrOther a =>
@@ -446,83 +548,149 @@ theorem stored_prim (hwf : WF C) {strict : Bool} {f : Field} (hf : f ∈ C.field
 
 /-! ### provenance -/
 
-/-- every entry of `t` is an entry of `s` or has a legitimate origin -/
-def Prov (C : Cls) (W : World V) (s t : State V) : Prop := ∀ k v, t.data.get k = some v → Origin C W s k v
+/-- every entry of `t` is an entry of `s` or has a legitimate origin (keys and `__dict__`) -/
+def Prov (C : Cls) (W : World V) (xs : List V) (s t : State V) : Prop :=
+  (∀ k v, t.data.get k = some v → Origin C W xs s k v) ∧ (∀ a v, t.attrs.get a = some v → OriginAttr C W xs s a v)
 
-theorem Prov.refl (s : State V) : Prov C W s s := fun _ _ h => Or.inl h
+theorem Prov.refl (xs : List V) (s : State V) : Prov C W xs s s := ⟨fun _ _ h => Or.inl h, fun _ _ h => Or.inl h⟩
 
-theorem Prov.trans {a b c : State V} (h1 : Prov C W a b) (h2 : Prov C W b c) : Prov C W a c := by
-  intro k v hk
-  rcases h2 k v hk with h | h | h | h
-  · exact h1 k v h
-  · exact Or.inr (Or.inl h)
-  · exact Or.inr (Or.inr (Or.inl h))
-  · exact Or.inr (Or.inr (Or.inr h))
+theorem Prov.trans {xs : List V} {a b c : State V} (h1 : Prov C W xs a b) (h2 : Prov C W xs b c) : Prov C W xs a c := by
+  refine ⟨?_, ?_⟩
+  · intro k v hk
+    rcases h2.1 k v hk with h | h | h | h
+    · exact h1.1 k v h
+    · exact Or.inr (Or.inl h)
+    · exact Or.inr (Or.inr (Or.inl h))
+    · exact Or.inr (Or.inr (Or.inr h))
+  · intro k v hk
+    rcases h2.2 k v hk with h | h | h
+    · exact h1.2 k v h
+    · exact Or.inr (Or.inl h)
+    · exact Or.inr (Or.inr h)
 
-theorem prov_coerce (hwf : WF C) (s : State V) {p : Field} (hp : p ∈ C.fields) : Prov C W s (coerce C W s p) := by
-  rcases coerce_cases (C := C) (W := W) s p with e | ⟨v, hv, e⟩
-  · rw [e]; exact Prov.refl s
+theorem prov_coerce (hwf : WF C) (xs : List V) (s : State V) {p : Field} (hp : p ∈ C.fields) :
+    Prov C W xs s (co C W s p) := by
+  rcases coerce_cases (C := C) (W := W) s p with e | e | ⟨v, hv, e⟩
+  · rw [e]; exact Prov.refl xs s
   · rw [e]
+    refine ⟨?_, fun _ _ h => Or.inl h⟩
+    intro k v' hk
+    simp only [get_del] at hk
+    split at hk
+    · cases hk
+    · exact Or.inl hk
+  · rw [e]
+    refine ⟨?_, fun _ _ h => Or.inl h⟩
     intro k v' hk
     simp only [get_set] at hk
     by_cases e' : k = p.name
     · simp only [e', if_true] at hk
       cases hk
-      obtain ⟨xs, hx⟩ := compute_getter hv
-      exact Or.inr (Or.inr (Or.inl ⟨p, xs, by rw [e']; exact getField_name hwf hp, hx⟩))
+      obtain ⟨raw, hx⟩ := compute_convert hv
+      exact Or.inr (Or.inr (Or.inl ⟨p, raw, by rw [e']; exact getField_name hwf hp, hx⟩))
     · simp only [e', if_false] at hk
       exact Or.inl hk
 
-theorem prov_prim (hwf : WF C) {strict : Bool} (s : State V) (p : Prim V) (hok : Prim.ok strict C W s p) :
-    Prov C W s (p.apply C W s) := by
+theorem fieldByAtt_att (hwf : WF C) {f : Field} (hf : f ∈ C.fields) : fieldByAtt C f.attname = some f := by
+  cases h : fieldByAtt C f.attname with
+  | none => exact absurd rfl (fieldByAtt_none h hf)
+  | some g =>
+    obtain ⟨hg, hga⟩ := fieldByAtt_some h
+    rw [att_inj hwf hg hf hga]
+
+theorem prov_prim (hwf : WF C) {strict : Bool} {xs : List V} (s : State V) (p : Prim V)
+    (hok : Prim.ok strict xs C W s p) : Prov C W xs s (p.apply C W s) := by
   cases p with
   | store f pv =>
-    obtain ⟨hf, _, _, _, x, hx⟩ := hok
-    have h1 : Prov C W s (storeField s f pv) := by
-      intro k v hk
-      unfold storeField at hk
-      split at hk
-      · simp only [get_del] at hk
+    obtain ⟨hf, _, _, _, ⟨x, hxm, hx⟩, _⟩ := hok
+    have h1 : Prov C W xs s (storeField s f pv) := by
+      refine ⟨?_, ?_⟩
+      · intro k v hk
+        unfold storeField at hk
         split at hk
-        · cases hk
+        · simp only [get_del] at hk
+          split at hk
+          · cases hk
+          · exact Or.inl hk
+        · simp only [get_set] at hk
+          by_cases e : k = f.name
+          · simp only [e, if_true] at hk
+            cases hk
+            exact Or.inr (Or.inl ⟨f, by rw [e]; exact getField_name hwf hf, x, hxm, hx⟩)
+          · simp only [e, if_false] at hk
+            exact Or.inl hk
+      · intro a v hk
+        unfold storeField at hk
+        split at hk
+        · simp only [get_set] at hk
+          by_cases e : a = f.attname
+          · simp only [e, if_true] at hk
+            cases hk
+            exact Or.inr (Or.inl ⟨f, by rw [e]; exact fieldByAtt_att hwf hf, x, hxm, hx⟩)
+          · simp only [e, if_false] at hk
+            exact Or.inl hk
         · exact Or.inl hk
-      · simp only [get_set] at hk
-        by_cases e : k = f.name
-        · simp only [e, if_true] at hk
-          cases hk
-          exact Or.inr (Or.inl ⟨f, x, by rw [e]; exact getField_name hwf hf, hx⟩)
-        · simp only [e, if_false] at hk
-          exact Or.inl hk
-    exact coerceDependants_preserves (C := C) (W := W) (fun t => Prov C W s t)
-      (fun t p ht hp _ => ht.trans (prov_coerce hwf t hp)) f _ h1
-  | recompute q => exact prov_coerce hwf s hok.1
+    exact coerceDependants_preserves (C := C) (W := W) (fun t => Prov C W xs s t)
+      (fun t p ht hp _ => ht.trans (prov_coerce hwf xs t hp)) f _ h1
+  | recompute q => exact prov_coerce hwf xs s hok.1
   | setAdd k v =>
     obtain ⟨hk, _, hadd⟩ := hok
+    refine ⟨?_, fun _ _ h => Or.inl h⟩
     intro k' v' hk'
     simp only [Prim.apply, get_set] at hk'
     by_cases e : k' = k
     · simp only [e, if_true] at hk'
       cases hk'
       refine Or.inr (Or.inr (Or.inr ⟨by rw [e]; exact hk, ?_⟩))
-      rcases hadd with ha | ⟨_, x, hx⟩
-      · exact Or.inl ha
-      · exact Or.inr ⟨x, hx⟩
+      rcases hadd with ⟨ha, hm⟩ | ⟨_, x, hm, hx⟩
+      · exact Or.inl ⟨ha, hm⟩
+      · exact Or.inr ⟨x, hm, hx⟩
     · simp only [e, if_false] at hk'
       exact Or.inl hk'
   | remove f =>
-    intro k v hk
-    simp only [Prim.apply, get_del] at hk
-    split at hk
-    · cases hk
-    · exact Or.inl hk
+    refine ⟨?_, ?_⟩
+    · intro k v hk
+      simp only [Prim.apply, get_del] at hk
+      split at hk
+      · cases hk
+      · exact Or.inl hk
+    · intro k v hk
+      simp only [Prim.apply, get_del] at hk
+      split at hk
+      · cases hk
+      · exact Or.inl hk
   | delKey k =>
+    refine ⟨?_, fun _ _ h => Or.inl h⟩
     intro k' v hk
     simp only [Prim.apply, get_del] at hk
     split at hk
     · cases hk
     · exact Or.inl hk
-  | clear => intro k v hk; simp [Prim.apply] at hk
-  | setAttrOther a v => exact Prov.refl s
-  | delAttrOther a => exact Prov.refl s
+  | clear =>
+    refine ⟨?_, ?_⟩
+    · intro k v hk; simp [Prim.apply] at hk
+    · intro a v hk
+      simp only [Prim.apply, clearAttrs_get] at hk
+      split at hk
+      · cases hk
+      · exact Or.inl hk
+  | setAttrOther a v =>
+    obtain ⟨ha, hm⟩ := hok
+    refine ⟨fun _ _ h => Or.inl h, ?_⟩
+    intro a' v' hk
+    simp only [Prim.apply, get_set] at hk
+    by_cases e : a' = a
+    · simp only [e, if_true] at hk
+      cases hk
+      exact Or.inr (Or.inr ⟨by rw [e]; exact ha, hm⟩)
+    · simp only [e, if_false] at hk
+      exact Or.inl hk
+  | delAttrOther a =>
+    refine ⟨fun _ _ h => Or.inl h, ?_⟩
+    intro a' v hk
+    simp only [Prim.apply, get_del] at hk
+    split at hk
+    · cases hk
+    · exact Or.inl hk
 
 end Utv.C07
